@@ -36,16 +36,20 @@ class Scenario:
         return (self.bits(), self.argv_style, self.orig, self.cfg_text, self.backup, self.md5_of, self.out)
 
 
-def paths(root):
-    return {"in": os.path.join(root, "a.c"), "out": os.path.join(root, "b.c"), "tmp": os.path.join(root, "a.c.uncrustify"),
-            "backup": os.path.join(root, "a.c.unc-backup~"), "md5": os.path.join(root, "a.c.unc-backup.md5~")}
+def paths(root, style=None):
+    P = {"in": os.path.join(root, "a.c"), "out": os.path.join(root, "b.c"), "tmp": os.path.join(root, "a.c.uncrustify"),
+         "backup": os.path.join(root, "a.c.unc-backup~"), "md5": os.path.join(root, "a.c.unc-backup.md5~")}
+    if style == "positional":     # FILE -> FILE.uncrustify (default suffix), written directly
+        P["out"] = os.path.join(root, "a.c.uncrustify")
+        P["tmp"] = os.path.join(root, "a.c.uncrustify.uncrustify")
+    return P
 
 
 def setup_dir(base, scn):
     root = os.path.join(base, "root")
     shutil.rmtree(base, ignore_errors=True)
     os.makedirs(root)
-    P = paths(root)
+    P = paths(root, scn.argv_style)
     cfg = os.path.join(base, "u.cfg")
     with open(cfg, "w") as f:
         f.write(scn.cfg_text)
@@ -84,6 +88,8 @@ def argv_for(scn, P, cfg):
         a += ["-f", P["in"], "-o", P["out"]]
     elif st == "f":                     # -f FILE  (stdout)
         a += ["-f", P["in"]]
+    elif st == "positional":            # FILE  (-> FILE.uncrustify)
+        a += [P["in"]]
     elif st == "check":                 # --check FILE
         a = [x for x in a if x != "-q"] + ["--check", P["in"]]
     else:
@@ -95,6 +101,7 @@ def mode_for(style, if_changed=False, keep_mtime=False):
     base = {"replace": dict(in_place=1, to_file=1, no_backup=0), "replace-no-backup": dict(in_place=1, to_file=1, no_backup=1),
             "no-backup": dict(in_place=1, to_file=1, no_backup=1), "f-o-same": dict(in_place=1, to_file=1, no_backup=0),
             "f-o": dict(in_place=0, to_file=1, no_backup=0), "f": dict(in_place=0, to_file=0, no_backup=0),
+            "positional": dict(in_place=0, to_file=1, no_backup=0),
             "check": dict(in_place=0, to_file=0, no_backup=0, do_check=1)}[style]
     d = dict(base)
     d["if_changed"] = 1 if if_changed else 0
@@ -114,10 +121,12 @@ def plan_env(plan):
     return ",".join(items)
 
 
-def canon_log(log_text):
+def canon_log(log_text, style=None):
     """interposer log -> list of 'op role result' as the model prints them."""
     out = []
     name2role = {"a.c": "in", "b.c": "out", "a.c.uncrustify": "tmp", "a.c.unc-backup~": "backup", "a.c.unc-backup.md5~": "md5"}
+    if style == "positional":
+        name2role["a.c.uncrustify"] = "out"
     for line in log_text.splitlines():
         parts = line.split()
         if len(parts) < 2 or not parts[0].isdigit():
@@ -152,7 +161,7 @@ def run_impl(base, scn, plan=(), timeout=30):
         disk[r] = open(P[r], "rb").read() if os.path.exists(P[r]) else None
     extra = sorted(set(os.listdir(root)) - set(os.path.basename(x) for x in P.values()))
     logtxt = open(log).read() if os.path.exists(log) else ""
-    return {"rc": p.returncode, "stdout": p.stdout, "stderr": p.stderr, "disk": disk, "trace": canon_log(logtxt),
+    return {"rc": p.returncode, "stdout": p.stdout, "stderr": p.stderr, "disk": disk, "trace": canon_log(logtxt, scn.argv_style),
             "rawlog": logtxt, "extra_files": extra}
 
 
